@@ -468,13 +468,13 @@ def jobs_for(prop, tier):
 
 def _jobs_for(prop, tier):
     if prop == 'C01':
-        return jobs_c01(tier) + jobs_carry(tier) + jobs_numpy_getitem(tier) + jobs_option_getitem(tier) + jobs_ellipsis(tier) + jobs_missing(tier) + jobs_advanced(tier) + jobs_getitem_entry(tier) + jobs_union_getitem_advanced(tier) + jobs_union_ops(tier) + jobs_regular_getitem_jagged(tier) + jobs_list_asslice(tier)
+        return jobs_c01(tier) + jobs_carry(tier) + jobs_numpy_getitem(tier) + jobs_option_getitem(tier) + jobs_ellipsis(tier) + jobs_missing(tier) + jobs_missing_jagged(tier) + jobs_advanced(tier) + jobs_getitem_entry(tier) + jobs_union_getitem_advanced(tier) + jobs_union_ops(tier) + jobs_regular_getitem_jagged(tier) + jobs_list_asslice(tier)
     if prop == 'C05':
         return jobs_c05(tier) + [j for j in jobs_option_below(tier) if j[1][3] in ('num', 'localindex')] + jobs_flatten(tier) + jobs_axis0(tier, 'localindex') + jobs_record_below(tier, ('num', 'localindex')) + jobs_axis_through_record(tier, ('num', 'localindex')) + [(h_union_flatten, (), 1800), (h_union_flatten_mixed, (False,), 1800), (h_union_flatten_mixed, (True,), 1800)]
     if prop == 'C09':
         return jobs_c09(tier) + [j for j in jobs_option_below(tier) if j[1][3] in ('rpad', 'rpad_and_clip')] + jobs_simplify(tier) + jobs_fillna(tier) + jobs_bytemask(tier) + jobs_record_below(tier, ('rpad', 'rpad_and_clip')) + jobs_axis_through_record(tier, ('rpad', 'rpad_and_clip')) + [j for j in jobs_c02(tier) if j[1][0] in ('IndexedOptionArray64', 'ByteMaskedArray', 'BitMaskedArray', 'UnmaskedArray')]
     if prop == 'C11':
-        return jobs_simplify(tier) + jobs_validity_params(tier) + jobs_list_validity(tier)
+        return jobs_simplify(tier) + jobs_validity_params(tier) + jobs_list_validity(tier) + jobs_missing_jagged(tier)
     if prop == 'C07':
         return [j for j in jobs_option_below(tier) if j[1][3] == 'combinations'] + jobs_combinations(tier) + jobs_axis0(tier, 'combinations') + jobs_record_below(tier, ('combinations',))
     if prop == 'C03':
@@ -3631,6 +3631,128 @@ def h_missing(pattern, L, S):
         return akrun_check(prog, exp, 'array[:, %s] (None where negative, positions into the selection %s) on %d rows of %d' % (iv, arr, L, W))
     return mdischarge(nc.m, 'Content::getitem_next(SliceMissing64) pattern=%s rows=%d selected=%d' % (''.join('N' if x else 'v' for x in pattern), L, S), obls, [], replay=replay,
                       extra=dict(bounds='%d columns (None pattern concrete: case split, positions symbolic), %d rows, %d selected items per row' % (n, L, S)))
+
+
+@guard
+def h_missing_jagged(pattern, inner):
+    """getitem_next_missing_jagged - x[[[0], None, [0, 2]]]: a jagged slice with None lists.  Entry i of the answer is None where the slice has
+    None and otherwise what the content answers for list i of the slice - with the spans (offsets[k], offsets[k + 1]) of the k-th present list -
+    in one row of len(slice) entries; when the content's own answer is option-type (`inner`: its missing pattern; the array sliced has missing
+    lists itself) the two options are merged into one: no option node directly inside another (the validity rule)"""
+    pattern = tuple(bool(x) for x in pattern)
+    n = len(pattern)
+    J = sum(1 for x in pattern if not x)
+    nc = NodeCtx(['CNT', 'SLC', 'RA', 'IA', 'IDX', 'UTL', 'KD', 'IDS'], [], unwind=max(14, 4 * n + 12))
+    fo, sz, al, fields = nc.layout_of('SLC', '_ZNK7awkward14SliceMissingOfIlE5indexEv')
+    # the jagged part: J lists, offsets symbolic non-decreasing from zero
+    jo = z3.Array('joffsets', z3.BitVecSort(64), z3.BitVecSort(64))
+    offs = [z3.Select(jo, BV(j)) for j in range(J + 1)]
+    nc.m.assume(offs[0] == 0)
+    for j in range(J):
+        nc.m.assume(offs[j] <= offs[j + 1], offs[j + 1] <= 2 ** 20)
+    jdata = nc.m.array('joffsets', ('i', 64), J + 1, const=True)
+    jc = {0: (nc.vptr_of('N7awkward13SliceJaggedOfIlEE', 'SLC'), 8), 64: (NULL, 8), 72: (NULL, 8)}
+    nc.index_cells(jc, 8, jdata, BV(0), BV(J + 1))
+    jag = nc.m.record('jagged', jc, const=True)
+    # the missing index: entry i = which present list (in order), negative for None
+    order, k = [], 0
+    for miss in pattern:
+        order.append(-1 if miss else k)
+        k += 0 if miss else 1
+    iarr = z3.K(z3.BitVecSort(64), BV(0))
+    for i, v in enumerate(order):
+        iarr = z3.Store(iarr, BV(i), BV(v))
+    data = nc.m.array('missing_index', ('i', 64), max(1, n), const=True, arr=iarr)
+    mdat = nc.m.array('missing_mask', ('i', 8), max(1, n), const=True)
+    cells = {0: (nc.vptr_of('N7awkward14SliceMissingOfIlEE', 'SLC'), 8)}
+    nc.index_cells(cells, fo[1], data, BV(0), BV(n))
+    nc.index_cells(cells, fo[2], mdat, BV(0), BV(n))
+    cells[fo[3]] = (jag, 8); cells[fo[3] + 8] = (NULL, 8)
+    item = nc.m.record('missing', cells, const=True)
+    tail = _slice_object(nc, 'tail', [])
+    cells = {}
+    nc.index_cells(cells, 0, NULL, BV(0), BV(0))
+    cells[48] = (BV(1, 8), 1)
+    adv = nc.m.record('advanced', cells, const=True)
+    # the array sliced: `that` is the one-row wrapper Content::getitem puts around it; its row 0 is the array itself (an opaque content of >= n lists)
+    BASE = 1 << 32
+    kk = z3.BitVec('k!', 64)
+    lin = nc.m.bv('len_sliced')
+    nc.m.assume(lin >= n, lin <= 2 ** 20)
+    cin = nc.new_content_in(nc.m.mem, 'content_in', lin, z3.Lambda([kk], kk + BASE), const=True)
+    answer, aidx = None, None
+    if inner is not None:
+        inner = tuple(bool(x) for x in inner)
+        assert len(inner) == n
+        answer, aidx = build_option64(nc, inner, name='optanswer')
+    seen = []
+    ANS = z3.Function('ANSWER', z3.BitVecSort(64), z3.BitVecSort(64))
+
+    def s_at(eng, fr, ins, st, name, argv):
+        nc._ret(st, argv[0], cin)
+        return None
+
+    def s_jagged(eng, fr, ins, st, name, argv):
+        sret, selfp, sstarts, sstops, it, tl = argv
+        nm, info = nc.content_info(selfp, st, eng)
+        a_, b_ = nc.index_terms(st.mem, sstarts, 'slicestarts')[0], nc.index_terms(st.mem, sstops, 'slicestops')[0]
+        seen.append(dict(pc=st.pc, info=info, starts=a_, stops=b_))
+        nc._ret(st, sret, answer if answer is not None else nc.fresh_content(eng, st, BV(len(a_)), z3.Lambda([kk], ANS(kk)), derived='jagged'))
+        return None
+    nc.m.eng.stubs['vf$slot%d' % nc.slot('17getitem_at_nowrapEl')] = s_at
+    nc.m.eng.stubs['vf$slot%d' % nc.slot('7Content19getitem_next_jaggedERKNS_7IndexOfIlEES4_RKSt10shared_ptrINS_9SliceItemEE')] = s_jagged
+    nc.m.eng.stubs['vf$slot%d' % nc.slot('9classnameB5cxx11Ev')] = nodeh.s_some_string
+    that = nc.m.record('that', {0: (nc.content0, 8), 8: (NULL, 8)}, const=True)
+    nc.m.record('ret', {})
+    out = nc.m.call('_ZN7awkward27getitem_next_missing_jaggedERKNS_14SliceMissingOfIlEERKNS_5SliceERKNS_7IndexOfIlEERKSt10shared_ptrINS_7ContentEE', [Ptr('ret', 0), item, tail, adv, that])
+    obls = [('a jagged slice with None lists that fits does not raise', out.raised), ('the content is asked', z3.Not(z3.Or([ob['pc'] for ob in seen] + [z3.BoolVal(False)])))]
+    for ob in seen:
+        g = ob['pc']
+        obls.append(('the content asked is the array sliced', z3.And(g, z3.Or(ob['info']['length'] != lin, z3.Select(ob['info']['atoms'], BV(0)) != BV(BASE)))))
+        if len(ob['starts']) != n or len(ob['stops']) != n:
+            obls.append(('one (start, stop) pair per entry of the slice', g))
+        else:
+            for i, kq in enumerate(order):
+                if kq >= 0:
+                    obls.append(('entry %d: the span of present list %d' % (i, kq), z3.And(g, z3.Or(ob['starts'][i] != offs[kq], ob['stops'][i] != offs[kq + 1]))))
+                else:
+                    obls.append(('entry %d (None): an empty span' % i, z3.And(g, ob['starts'][i] != ob['stops'][i])))
+    if answer is not None:
+        row = [NONE if (pattern[i] or inner[i]) else Elem(aidx[i]) for i in range(n)]
+    else:
+        row = [NONE if pattern[i] else Elem(ANS(BV(i))) for i in range(n)]
+    for g, res in nodeh.decode_cases(nc, out.mem, nc.m.cell('ret', 0)):
+        g = z3.And(g, z3.Not(out.raised))
+        if res is None:
+            obls.append(('a result is returned', g))
+        else:
+            obls += [(nm, z3.And(g, c)) for nm, c in nodeh.compare_value(res, [row], strict=True)]
+
+    def replay(model, ent):
+        # fixed witnesses through the whole slicing pipeline: the array [[0, 10], X, [30, 40, 50], [60]] sliced with [[0], None, [0, 2], []]
+        # (X = a list, or None when the array itself is option-type): values, and the validity check on the answer
+        opt = inner is not None
+        base = 'i64 7 0 10 20 30 40 50 60 listoffset64 5 0 2 3 6 7 ' + ('option64 4 0 -1 2 3 ' if opt else '')
+        sl = 'getitem 1 missing 4 0 -1 1 2 jagged 4 0 1 3 3 array 3 0 0 2'
+        exp = [[0], None, [30, 50], []]
+        k1, got = fullnative.akrun(base + sl)
+        k2, val = fullnative.akrun(base + sl + ' validity')
+        payload = dict(program=base + sl, native=[k1, got], validity=[k2, val], expected=exp)
+        if k1 != 'OK' or got != exp or k2 != 'OK' or val:
+            return True, '%s[[[0], None, [0, 2], []]]: native library answers %s %s, validity of the answer: %s %r (expected %s, valid)' % (
+                '[[0, 10], None, [30, 40, 50], [60]]' if opt else '[[0, 10], [20], [30, 40, 50], [60]]', k1, str(got)[:120], k2, str(val)[:160], exp), payload
+        return False, 'native library agrees (%s, valid)' % (got,), payload
+    return mdischarge(nc.m, 'getitem_next_missing_jagged slice=%s content answers %s' % (''.join('N' if x else 'v' for x in pattern), 'option-type ' + ''.join('N' if x else 'v' for x in inner) if inner is not None else 'plain'),
+                      obls, [], replay=replay, prefer=[o <= 4 for o in offs] + [lin <= 8, nc.lencontent <= 8],
+                      extra=dict(bounds='%d slice entries (None pattern concrete: case split), jagged offsets and the length of the array sliced symbolic; the content\'s answer is %s' % (
+                          n, 'a real IndexedOptionArray64 (pattern concrete, index values symbolic)' if inner is not None else 'opaque')))
+
+
+def jobs_missing_jagged(tier):
+    q = [((0, 1, 0), None), ((0, 1, 0), (0, 1, 0)), ((1, 0), (0, 1)), ((0, 0), (1, 0))]
+    if tier != 'quick':
+        q += [((1, 1), None), ((0, 1, 0, 0), (0, 0, 1, 0)), ((0,), (0,)), ((1, 0, 1), (0, 0, 0)), ((0, 0, 0), None)]
+    return [(h_missing_jagged, a, 1800) for a in q]
 
 
 def jobs_missing(tier):
